@@ -11,7 +11,9 @@ Spec: specs/Serial.tla (+ SerialGen, SerialTrace, generated SerialSchema).
    its hint by each template, pushed through to_json / json.dumps / from_json /
    serialize_extraction(include_binary=False); the observations are validated by TLC (SerialTrace).
 3. Real extractions (repo fixtures + generated XLSX with typed cells) are round-tripped the same way
-   (results and units) and the CLI (--json / --json-unit, with / without --binary) is run in-process.
+   (results and units) and the CLI (--json / --json-unit, with / without --binary) is run in-process, and
+   again in worker processes whose stdout has the encoding of several environments (CLI_ENVS) on documents
+   and file names with non-ASCII / non-BMP / undecodable characters.
 """
 from __future__ import annotations
 
@@ -47,13 +49,23 @@ def _plain(x):
     return x
 
 
-def _worker(mode, job, scratch, tag):
+def _worker(mode, job, scratch, tag, extra_env=None):
     inp = scratch / f"job-{tag}.json"
     out = scratch / f"out-{tag}.json"
     inp.write_text(json.dumps(job))
     return out, subprocess.Popen([PY, "-m", "mbv.props.c05", "worker", mode, str(inp), str(out)],
-                                 env=child_env({"PYTHONHASHSEED": "0"}), cwd=str(VERIF),
+                                 env=_env(extra_env), cwd=str(VERIF),
                                  stdout=subprocess.PIPE, stderr=subprocess.PIPE, text=True)
+
+
+def _env(extra):
+    e = child_env({"PYTHONHASHSEED": "0"})
+    for k, val in (extra or {}).items():
+        if val == "":
+            e.pop(k, None)
+        else:
+            e[k] = val
+    return e
 
 
 def _collect(procs, what):
@@ -257,8 +269,16 @@ def run(ctx):
     fprocs = [_worker("fixtures", {"files": fx[i::6] if i < 6 else [], "all_files": fx, "wd": str(ctx.scratch / f"fx{i}"),
                                     "seed": ctx.seed, "gen": i == 6},
                       ctx.scratch, f"fx{i}") for i in range(7)]
+    eprocs = [_worker("clienv", {"wd": str(ctx.scratch / f"env-{i}"), "label": lab}, ctx.scratch, f"env{i}", env)
+              for i, (lab, env) in enumerate(sorted(CLI_ENVS.items()))]
     inst_out = _collect(procs, "instances")
     fx_out = _collect(fprocs, "fixtures")
+    env_out = _collect(eprocs, "CLI under a stdout environment")
+    n_env = sum(len(o["events"]) for o in env_out)
+    if n_env < 2 * 3 * len(CLI_ENVS):
+        raise MachineryError(f"only {n_env} CLI runs under the stdout environments: binding broken "
+                             f"({[n for o in env_out for n in o['notes']][:4]})")
+    fx_out = fx_out + env_out
     events = [e for o in inst_out for e in o["events"]]
     build_failed = sum(o["build_failed"] for o in inst_out)
     fx_events = [e for o in fx_out for e in o["events"]]
@@ -369,7 +389,10 @@ def run(ctx):
                 "generated XLSX files with typed cells, each replayed again with its BytesIO payloads read to the "
                 "end / middle (the templates enumerate the stream position too) + the CLI in 4 modes per fixture and "
                 "per generated archive of fixtures with pictures, every printed result / unit of multi-result inputs "
-                "checked against its object; non-trivial = distinct abstract value with more than 8 nodes",
+                "checked against its object; the CLI run again in processes with the stdout encoding of 4 environments "
+                "(utf-8, ascii, cp1252, C locale) on documents / file names with non-ASCII, non-BMP and undecodable "
+                "characters; generated XLSX / ODS sheets carry every typed cell kind in the header row too; "
+                "non-trivial = distinct abstract value with more than 8 nodes",
            exhaustive=not ctx.thorough,
            constants={"classes": len(schema), "instantiated": len(inst), "protocol_classes_skipped": skipped,
                       "hint_shapes": len(shapes), "templates": ntpl, "template_widths": [list(w) for w in tpl_widths],
@@ -422,15 +445,134 @@ def _typed_xlsx(path, seed, k):
     hdr = ["s", "i", "f", "b", "dt", "d", "t", "dur", "dur2", "none", "err"]
     if k == 1:
         hdr = ["_type", "_bytes", "_bytesio"] + hdr[3:]       # header cells from the marker vocabulary
+    if k == 2:                                                # every typed cell kind in the FIRST row as well
+        hdr = ["s", 7, 2.5, True, datetime.datetime(2024, 1, 1, 8, 30), datetime.date(2024, 2, 1),
+               datetime.time(9, 15), datetime.timedelta(hours=26, minutes=1), datetime.timedelta(seconds=61), None,
+               "#N/A", "=1+1"]
     ws.append(hdr)
+    if k == 2:
+        ws.cell(row=1, column=8).number_format = "[h]:mm:ss"
+        ws.cell(row=1, column=9).number_format = "[h]:mm:ss"
     for r in range(2 + k):
         ws.append(["_type" if r == 0 else "x%d" % rng.randrange(100), rng.randrange(-5, 10 ** 6), rng.random() * 100,
                    bool(r % 2), datetime.datetime(2020, 1 + r, 2, 3, 4, 5), datetime.date(2021, 2, 3 + r),
                    datetime.time(1 + r, 2, 3), datetime.timedelta(hours=30 + r, minutes=5),
-                   datetime.timedelta(seconds=rng.randrange(1, 86399)), None, "#DIV/0!"])
+                   datetime.timedelta(seconds=rng.randrange(1, 86399)), None, "#DIV/0!"] + (["=2*3"] if k == 2 else []))
         ws.cell(row=ws.max_row, column=8).number_format = "[h]:mm:ss"
         ws.cell(row=ws.max_row, column=9).number_format = "[h]:mm:ss"
     wb.save(path)
+
+
+def _typed_ods(path):
+    """Minimal ODS: every office:value-type in the first row and below it."""
+    import zipfile
+    ns = ('xmlns:office="urn:oasis:names:tc:opendocument:xmlns:office:1.0" '
+          'xmlns:table="urn:oasis:names:tc:opendocument:xmlns:table:1.0" '
+          'xmlns:text="urn:oasis:names:tc:opendocument:xmlns:text:1.0"')
+
+    def cell(vt, attr, val, text):
+        a = f' office:value-type="{vt}"' + (f' office:{attr}="{val}"' if attr else "")
+        return f"<table:table-cell{a}><text:p>{text}</text:p></table:table-cell>"
+    row = (cell("date", "date-value", "2020-01-02", "02.01.2020") + cell("date", "date-value", "2020-01-02T03:04:05", "x")
+           + cell("time", "time-value", "PT30H05M00S", "30:05:00") + cell("boolean", "boolean-value", "true", "TRUE")
+           + cell("float", "value", "1.5", "1,5") + cell("float", "value", "7", "7")
+           + cell("percentage", "value", "0.25", "25%") + cell("currency", "value", "9.99", "9,99")
+           + cell("string", None, None, "_type") + "<table:table-cell/>" + cell("string", None, None, "Err:502"))
+    content = (f'<?xml version="1.0" encoding="UTF-8"?><office:document-content {ns} office:version="1.2"><office:body>'
+               f'<office:spreadsheet><table:table table:name="typed">' + 3 * f"<table:table-row>{row}</table:table-row>"
+               + "</table:table></office:spreadsheet></office:body></office:document-content>")
+    with zipfile.ZipFile(path, "w") as z:
+        z.writestr(zipfile.ZipInfo("mimetype"), "application/vnd.oasis.opendocument.spreadsheet")
+        z.writestr("content.xml", content)
+        z.writestr("META-INF/manifest.xml", '<?xml version="1.0"?><manifest:manifest xmlns:manifest='
+                   '"urn:oasis:names:tc:opendocument:xmlns:manifest:1.0"><manifest:file-entry manifest:full-path="/" '
+                   'manifest:media-type="application/vnd.oasis.opendocument.spreadsheet"/></manifest:manifest>')
+
+
+# stdout environments of the CLI: label -> environment of the worker process
+CLI_ENVS = {
+    "utf-8": {"PYTHONIOENCODING": "utf-8"},
+    "ascii": {"PYTHONIOENCODING": "ascii"},
+    "cp1252": {"PYTHONIOENCODING": "cp1252"},
+    "C-locale": {"LC_ALL": "C", "LANG": "C", "PYTHONUTF8": "0", "PYTHONCOERCECLOCALE": "0", "PYTHONIOENCODING": ""},
+}
+
+
+def _w_clienv(job):
+    """Runs in a process whose standard streams have the encoding of one environment.  The CLI writes to
+    a text stream with exactly sys.stdout's encoding and error handler; the bytes are decoded and parsed
+    like a consumer of the pipe would."""
+    import io
+    import logging
+    import sharepoint2text
+    from sharepoint2text import cli
+    from sharepoint2text.parsing.extractors.serialization import serialize_extraction
+    logging.disable(logging.CRITICAL)
+    enc, errors = sys.stdout.encoding, sys.stdout.errors
+    wd = os.fsencode(job["wd"])
+    os.makedirs(wd, exist_ok=True)
+    text = "plain ascii\nGreek \u03b1\u03b2\u03b3 CJK \u6f22\u5b57 emoji \U0001f600 e-acute \u00e9 euro \u20ac\n"
+    html = ("<html><head><title>\u6f22\u5b57 \U0001d11e</title></head><body><h1>\u0391\u03b8\u03ae\u03bd\u03b1</h1>"
+            "<p>na\u00efve caf\u00e9 \U0001f600</p><a href='http://x/\u00fc'>l\u00efnk</a></body></html>")
+    names = [b"plain.txt", "gr\u00fc\u00dfe \u03b1\u03b2\u03b3 \u6f22.txt".encode("utf-8"), b"caf\xe9 latin1 name.txt",
+             "\U0001f600 page.html".encode("utf-8"), b"bad \xff\xfe name.html"]
+    events, notes = [], []
+    for bname in names:
+        bpath = os.path.join(wd, bname)
+        try:
+            with open(bpath, "wb") as f:
+                f.write((html if bname.endswith(b".html") else text).encode("utf-8"))
+        except OSError as e:
+            notes.append(f"{bname!r}: cannot create ({e.__class__.__name__})")
+            continue
+        path = os.fsdecode(bpath)
+        label = ascii(os.fsdecode(bname))
+        try:
+            results = list(sharepoint2text.read_file(path))
+        except Exception as e:
+            notes.append(f"{label}: not extractable under {job['label']} ({type(e).__name__})")
+            continue
+        for mode, flag in (("json", "--json"), ("unit", "--json-unit")):
+            if mode == "json":
+                lib = [serialize_extraction(r, include_binary=False) for r in results]
+            else:
+                lib = [[serialize_extraction(u, include_binary=False) for u in r.iterate_units()] for r in results]
+            lib = json.loads(json.dumps(lib))
+            raw = io.BytesIO()
+            fake = io.TextIOWrapper(raw, encoding=enc, errors=errors, write_through=True)
+            real = sys.stdout
+            sys.stdout = fake
+            try:
+                try:
+                    rc = cli.main([flag, path])
+                except BaseException as ex:  # noqa
+                    rc = -1
+                    notes.append(f"{label} {mode} under {job['label']}: cli.main raised {type(ex).__name__}")
+                try:
+                    fake.flush()
+                except Exception:
+                    pass
+            finally:
+                sys.stdout = real
+            data = raw.getvalue()
+            top = inner = "-"
+            eq = False
+            try:
+                try:
+                    s = data.decode("utf-8")
+                except UnicodeDecodeError:
+                    s = data.decode(enc)          # strict: bytes that are not text in the stream's encoding are garbage
+                parsed = json.loads(s)
+                top = "obj" if isinstance(parsed, dict) else "arr" if isinstance(parsed, list) else "other"
+                if top == "arr" and parsed:
+                    inner = "obj" if isinstance(parsed[0], dict) else "arr" if isinstance(parsed[0], list) else "other"
+                eq = parsed == lib or (len(lib) == 1 and parsed == lib[0])
+            except Exception:
+                top = "unparsable"
+            events.append({"a": "Cli", "mode": mode, "binary": False, "n": len(results), "rc": rc if isinstance(rc, int) else -1,
+                           "top": top, "inner": inner, "eq": eq,
+                           "src": f"{label} with stdout {enc}/{errors} ({job['label']}); {len(data)} bytes written"})
+    return {"events": events, "notes": notes}
 
 
 def _w_fixtures(job):
@@ -463,11 +605,15 @@ def _w_fixtures(job):
             res = next(sharepoint2text.read_file(str(p)))
             data = res.sheets[0].data
             tags = {type(None): "null", str: "str", bool: "bool", int: "int", float: "num"}
-            for ri in range(1, len(raw)):
+            for ri in range(0, len(raw)):
                 for ci, cell in enumerate(raw[ri]):
                     stored = data[ri][ci] if ri < len(data) and ci < len(data[ri]) else None
-                    events.append({"a": "Cell", "kind": type(cell).__name__, "out": tags.get(type(stored), "py"),
-                                   "exc": f"stored {type(stored).__name__}", "src": f"generated typed{k}.xlsx R{ri + 1}C{ci + 1}"})
+                    events.append({"a": "Cell", "kind": type(cell).__name__, "row": "header" if ri == 0 else "data",
+                                   "out": tags.get(type(stored), "py"), "exc": f"stored {type(stored).__name__}",
+                                   "src": f"generated typed{k}.xlsx R{ri + 1}C{ci + 1}"})
+        p = wd / "typed.ods"
+        _typed_ods(p)
+        files.append((str(p), "generated typed.ods"))
 
     def lib_json(results, binary):
         return [json.loads(json.dumps(serialize_extraction(r, include_binary=binary))) for r in results]
@@ -627,5 +773,6 @@ if __name__ == "__main__":
         from ..repo import activate
         activate()
         job = json.loads(Path(sys.argv[3]).read_text())
-        res = {"schema": _w_schema, "instances": _w_instances, "fixtures": _w_fixtures}[sys.argv[2]](job)
+        res = {"schema": _w_schema, "instances": _w_instances, "fixtures": _w_fixtures,
+               "clienv": _w_clienv}[sys.argv[2]](job)
         Path(sys.argv[4]).write_text(json.dumps(res))
